@@ -133,7 +133,20 @@ def run(facts, rep, tier):
                         loc = P.store[loc].loc; seen_ += 1
                     dcl = loc[-1] if isinstance(loc, tuple) and loc and loc[0] == 'l' else None
                     var = next((c['var'] for c in (clo_.lam.captures if getattr(clo_, 'lam', None) is not None else []) or [] if c.get('decl') == dk), dk)
-                    if dcl in auto_decls:
+                    held_ = P.store.get(loc) if isinstance(loc, tuple) else None
+                    tmp_param = None
+                    if dcl is not None and dcl not in auto_decls and (isinstance(held_, Closure) or isinstance(getattr(held_, 'f', None), dict)):
+                        # a reference parameter of a helper that start() calls, bound there to a temporary (a lambda expression, a function object built in
+                        # the argument list): the temporary dies at the end of that call expression
+                        for g_ in facts.fns:
+                            for pr_ in g_.d.get('params') or []:
+                                if pr_.get('decl') == dcl and (pr_.get('ctype') or '').rstrip().endswith('&') and g_.name != f.name: tmp_param = (g_, pr_)
+                    if tmp_param is not None:
+                        g_, pr_ = tmp_param
+                        rep.violation('TH.1', f'{inst_label}: captures `{var}` by reference', body_site,
+                                      f'`{pr_["name"]}` is a reference parameter of {g_.name.split("::")[-1]}() bound to a temporary that start() creates in the argument list ({type(held_).__name__.lower()}): the temporary is destroyed when '
+                                      f'{g_.name.split("::")[-1]}() has returned, the new thread calls through a dangling reference however late it is scheduled', key=f'TH.1|tmp|{f.gname}|{pr_["name"]}', fn=f.name)
+                    elif dcl in auto_decls:
                         nm, ty_ = auto_decls[dcl]
                         rep.violation('TH.1', f'{inst_label}: captures `{var}` by reference', body_site,
                                       f'`{nm}` ({ty_}) has automatic storage in start(): it is gone when start() returns, the new thread reads a dangling reference however late it is scheduled',
@@ -203,6 +216,26 @@ def run(facts, rep, tier):
         rep.check(len(calls) == 1, 'TH.2', f'{c.name[:100]}: forwards to start()', c.shortloc(), 'constructor does not start the thread exactly once', key='TH.2|ctor', fn=c.name)
     # TH.1 at the call sites: what start() copies into the closure must itself own the callable.  A std::reference_wrapper (std::ref / std::cref)
     # to an object with automatic storage of the caller is a reference in disguise: the closure's copy refers to a dead object once the caller returns
+    # --- TH.2: the std::thread handle and the completion state stay with the Thread object the body reports to
+    thr_fields = {x['name'] for x in cls['fields'] if (x.get('ctype') or '').replace('const ', '').strip() in ('std::thread', 'std::jthread')}
+    body_this = any(n_.k == 'lambda' and any(c_.get('mode') in ('this', 'starthis') for c_ in (n_.captures or [])) for s_ in starts for n_ in s_.nodes())
+    n_tr = 0
+    for g in facts.fns:
+        if g.d.get('class') != TH or g.d.get('lambda'): continue
+        for n in g.nodes():
+            if n.k == 'member' and (n.name in thr_fields or n.name in state_fields) and n.n('base') is not None and n.n('base').k != 'this':
+                b_ = n.n('base')
+                while b_ is not None and b_.k in ('cast', 'paren', 'unop') and b_.n('sub') is not None: b_ = b_.n('sub')
+                if b_ is None or b_.k == 'this': continue
+                n_tr += 1
+                what = 'std::thread handle' if n.name in thr_fields else 'completion state'
+                if not body_this:
+                    rep.inconclusive('TH.2', f'{g.name.split("::")[-1][:40]}(): moves `{n.name}` between Thread objects', n.shortloc(), 'the thread body was not seen to capture `this`: whether the transfer separates a handle from its completion state is not followed'); continue
+                rep.violation('TH.2', f'{g.name.split("::")[-1][:40]}(): the {what} stays with the Thread object whose body reports to it', n.shortloc(),
+                              f'{g.name.split("::")[-1][:40]}() moves / exchanges `{n.name}` between two Thread objects (`{n.text()[:40]}`): the body of a running thread holds the `this` it was started on and writes the completion '
+                              f'state there — after the transfer a Thread object\'s isFinished() reports another task\'s completion, and join() waits for a thread other than the one whose completion it reports',
+                              key=f'TH.2|transfer|{g.gname}|{n.name}', fn=g.name)
+    if not n_tr: rep.ok('TH.2', 'no member function moves the std::thread handle or the completion state between Thread objects', cls.get('loc', ''))
     for g in facts.fns:
         if g.d.get('lambda'): continue
         for n in g.nodes():
